@@ -54,10 +54,12 @@ def _build(name, unit_dir, scratch, auto_map):
     return exe
 
 
-def _run(exe, label, fn):
+def _run(exe, label, fn, strict=False):
     try:
         r = subprocess.run([exe, label, fn or ''], capture_output=True, text=True, timeout=300)
     except subprocess.TimeoutExpired:
+        if strict:
+            raise
         return None
     for line in r.stdout.split('\n'):
         if line.startswith('WITNESS '):
@@ -115,6 +117,10 @@ def bounded(u, unit_dir, scratch, labels):
         if not exe:
             rows.append(dict(label=lab, fn='', result='error', why='replay program did not build'))
             continue
-        w = _run(exe, lab, lab.split('.')[0])
+        try:
+            w = _run(exe, lab, lab.split('.')[0], strict=True)
+        except subprocess.TimeoutExpired:
+            rows.append(dict(label=lab, fn=lab.split('.')[0], result='error', why='replay program timed out'))
+            continue
         rows.append(dict(label=lab, fn=lab.split('.')[0], result='witness' if w else 'ok', witness=w))
     return rows
